@@ -100,7 +100,15 @@ func (e *ThreadPoolExecutor) worker(i int) {
 			e.run(r)
 
 		case <-e.done:
-			return
+			// run what is still queued before leaving
+			for {
+				select {
+				case r := <-e.queue:
+					e.run(r)
+				default:
+					return
+				}
+			}
 		}
 	}
 }
